@@ -155,7 +155,14 @@ type VerifC07Perm struct {
 	Creds   bool   `json:"creds"` // ClientTlsCreds != nil
 	Service string `json:"service"`
 	Method  string `json:"method"`
+	// the TLS placeholder fields and the receive limit, verbatim
+	CertText  string `json:"certText"`  // string(Request.ServerTlsCert)
+	CredsText string `json:"credsText"` // "" when ClientTlsCreds == nil, else key + "|" + cert
+	Limit     int    `json:"limit"`     // Request.MessageReceiveLimit
 }
+
+// VerifC07ReceiveLimit is the constant clientReceiveLimit of test_case_library.go.
+func VerifC07ReceiveLimit() int { return clientReceiveLimit }
 
 type VerifC07Group struct {
 	P     int      `json:"p"`
@@ -234,7 +241,12 @@ func verifC07DumpOf(lib *testCaseLibrary) VerifC07Dump {
 	d.Perms = make([]VerifC07Perm, 0, len(lib.testCases))
 	for key, tc := range lib.testCases {
 		r := tc.Request
+		credsText := ""
+		if r.ClientTlsCreds != nil {
+			credsText = string(r.ClientTlsCreds.Key) + "|" + string(r.ClientTlsCreds.Cert)
+		}
 		d.Perms = append(d.Perms, VerifC07Perm{
+			CertText: string(r.ServerTlsCert), CredsText: credsText, Limit: int(r.MessageReceiveLimit),
 			Name: r.TestName, Key: key, Simple: lib.testCaseNames[key],
 			V: int(r.HttpVersion), P: int(r.Protocol), C: int(r.Codec), Z: int(r.Compression), St: int(r.StreamType),
 			Cert: len(r.ServerTlsCert) > 0, Creds: r.ClientTlsCreds != nil,
